@@ -47,6 +47,51 @@ class GhostFailure(Exception):
     """A ghost leaf was used in a way the real engine would reject (missing dataset, length mismatch...)."""
 
 
+class Interrupt(BaseException):
+    """Stands for KeyboardInterrupt / SystemExit (a BaseException that `except Exception` does not catch).  The real
+    ones are not used because CrossHair's own control flow also travels on BaseException."""
+
+
+def _leaf(name):
+    """Every ghost engine leaf that can fail in production calls this first.  In a fault run the call whose index
+    equals the (possibly symbolic) fault index raises: at most one fault per run."""
+    if not W.faults_on:
+        return
+    i = W.leaf_calls
+    W.leaf_calls = i + 1
+    if i > W.leaf_bound:
+        raise GhostFailure('more engine calls than any terminating run of this shape makes: not terminating')
+    if not W.fault_armed:
+        return
+    hit = kind = False
+    with _resumed_tracing():
+        if W.fault_at == i:
+            hit = True
+            if W.fault_kind:
+                kind = True
+    if hit:
+        W.fault_armed = False
+        W.fired = (i, name)
+        msg = f'injected fault in engine call #{i} ({name})'
+        W.injected = Interrupt(msg) if kind else OSError(msg)
+        raise W.injected
+
+
+class _Null:
+    def __enter__(self):
+        return self
+
+    def __exit__(self, *a):
+        return False
+
+
+def _resumed_tracing():
+    if not W.untraced:
+        return _Null()
+    from crosshair.tracers import ResumedTracing
+    return ResumedTracing()
+
+
 # ------------------------------------------------------------------------------------------------
 # world: fake filesystem + ghost dataset store, reset at the start of every run
 # ------------------------------------------------------------------------------------------------
@@ -58,6 +103,19 @@ class World:
         self.uuid_n = 0
         self.maxlen_calls = []
         self.loads = 0
+        # ---- fault injection (only used by fault_execute) ----
+        self.faults_on = False   # leaves count their calls
+        self.fault_armed = False
+        self.fault_at = None     # index of the leaf call that raises (may be a CrossHair symbolic int)
+        self.fault_kind = False  # False -> OSError, True -> Interrupt (a BaseException)
+        self.leaf_calls = 0
+        self.leaf_bound = 0
+        self.fired = None        # (index, leaf name)
+        self.injected = None     # the exception instance that was raised
+        self.untraced = False    # the real code is running with CrossHair's tracer off
+        self.saves = 0
+        self.save_bound = None
+        self.flags = {}
 
 
 W = World()
@@ -72,6 +130,7 @@ class Ghost:
         self.reference_data = _RefData()
 
     def write(self, path, **kwargs):
+        _leaf('VariantDataset.write')  # a failing write leaves no dataset at the path
         _store(path, self)
 
 
@@ -88,6 +147,7 @@ def _store(path, ghost):
 
 # ---- leaves of hail.vds.combiner.combine imported by name into the module ----------------------
 def _combine_variant_datasets(vdss, **kwargs):
+    _leaf('combine_variant_datasets')
     ids, pairs = [], []
     for v in vdss:
         if not isinstance(v, Ghost):
@@ -98,6 +158,7 @@ def _combine_variant_datasets(vdss, **kwargs):
 
 
 def _calculate_new_intervals(ht, n, check_path):
+    _leaf('calculate_new_intervals')
     if not isinstance(ht, _RefData):
         raise GhostFailure('calculate_new_intervals expects reference data')
     return ['ghost-interval'], None
@@ -119,6 +180,7 @@ def _quiet(*a, **k):
 
 # ---- hl.vds.* -----------------------------------------------------------------------------------
 def _read_vds(path, *, intervals=None, **kwargs):
+    _leaf('read_vds')
     g = W.datasets.get(path)
     if g is None:
         raise GhostFailure(f'read_vds: no dataset at {path!r}')
@@ -129,10 +191,12 @@ def _write_variant_datasets(vdss, paths, *, overwrite=False, codec_spec=None):
     if len(vdss) != len(paths):
         raise GhostFailure('write_variant_datasets: number of datasets and paths differ')
     for v, p in zip(vdss, paths):
+        _leaf('write_variant_datasets')  # datasets before the failing one stay written, the failing one is absent
         _store(p, v)
 
 
 def _store_ref_block_max_length(path):
+    _leaf('store_ref_block_max_length')
     if path not in W.datasets:
         raise GhostFailure(f'store_ref_block_max_length: no dataset at {path!r}')
     W.maxlen_calls.append(path)
@@ -194,6 +258,9 @@ class _FS:
 
     def open(self, path, mode='r', *a, **k):
         if 'w' in mode:
+            W.saves += 1
+            if W.save_bound is not None and W.saves > W.save_bound:
+                raise GhostFailure('more plan saves than any terminating run of this shape makes: not terminating')
             return _Writer(path)
         if path not in W.files:
             raise FileNotFoundError(path)
@@ -274,6 +341,7 @@ class _RangeTable:
         return t
 
     def aggregate(self, agg):
+        _leaf('Table.aggregate')
         return agg
 
 
@@ -357,6 +425,7 @@ class _GhostVariantDataset:
     _variants_path = staticmethod(_RealVariantDataset._variants_path)
 
     def __new__(cls, reference_data, variant_data):
+        _leaf('gvcf import + VariantDataset(...)')
         if not isinstance(reference_data, _MT) or not isinstance(variant_data, _MT):
             raise GhostFailure('VariantDataset(...) expects two matrix tables')
         if reference_data.ids != variant_data.ids or reference_data.samples != variant_data.samples:
@@ -600,6 +669,19 @@ def _get_reference(name):
     return RG
 
 
+def _eval(x):
+    _leaf('hl.eval')
+    return x
+
+
+def _get_flags(*names):
+    return {n: W.flags[n] for n in names if n in W.flags}
+
+
+def _set_flags(**kw):
+    W.flags.update(kw)
+
+
 HL_OVERRIDES = {
     'vds': _Proxy(_hl.vds, {
         'read_vds': _read_vds,
@@ -616,7 +698,9 @@ HL_OVERRIDES = {
     'tarray': _untraced(_hl.tarray),
     'tinterval': _untraced(_hl.tinterval),
     'get_reference': _get_reference,
-    'eval': lambda x: x,
+    'eval': _eval,
+    '_get_flags': _get_flags,
+    '_set_flags': _set_flags,
     'get_vcf_header_info': _get_vcf_header_info,
     'literal': _Lit,
     'enumerate': _enumerate,
@@ -711,19 +795,26 @@ def execute(n_gvcfs, vds_sizes, branch_factor, batch_size, resume, external_head
             steps += 1
     except Exception as e:  # CrossHair's control exceptions derive from BaseException
         return False, f'raised {type(e).__name__}: {e}', steps, W.loads
-    expected = [f'g{i}' for i in range(n_gvcfs)] + [f'v{i}' for i in range(len(vds_sizes))]
+    ok, why = check_final(n_gvcfs, len(vds_sizes))
+    return ok, why, steps, W.loads
+
+
+def check_final(n_gvcfs, n_vdses):
+    """The oracle on the final state of the ghost world: exactly one dataset written to the output path, built from
+    every given input exactly once, every gvcf under its own sample name."""
+    expected = [f'g{i}' for i in range(n_gvcfs)] + [f'v{i}' for i in range(n_vdses)]
     finals = [p for p in W.write_log if p == OUT]
     if len(finals) != 1:
-        return False, f'{len(finals)} datasets written to the output path', steps, W.loads
+        return False, f'{len(finals)} datasets written to the output path'
     got = W.datasets[OUT]
     if sorted(got.ids) != sorted(expected):
-        return False, f'final dataset built from {sorted(got.ids)}, expected {sorted(expected)}', steps, W.loads
+        return False, f'final dataset built from {sorted(got.ids)}, expected {sorted(expected)}'
     for path, sample in got.pairs:
         if sample != sample_of(path):
-            return False, f'gvcf {path} imported under sample name {sample!r}', steps, W.loads
+            return False, f'gvcf {path} imported under sample name {sample!r}'
     if len(got.pairs) != n_gvcfs:
-        return False, 'final dataset lost gvcf sample ids', steps, W.loads
-    return True, 'ok', steps, W.loads
+        return False, 'final dataset lost gvcf sample ids'
+    return True, 'ok'
 
 
 def _save_and_load(c):
@@ -769,3 +860,96 @@ def unreached(n_gvcfs, vds_sizes, branch_factor, batch_size, resume, external_he
     `min_steps` steps with at least `min_loads` resumptions."""
     ok, _, steps, loads = execute(n_gvcfs, vds_sizes, branch_factor, batch_size, resume, external_header)
     return not (ok and steps >= min_steps and loads >= min_loads)
+
+
+# ------------------------------------------------------------------------------------------------
+# fault inside a step, through the REAL run(), then resume from whatever plan is on disk
+# ------------------------------------------------------------------------------------------------
+def fault_execute(n_gvcfs, vds_sizes, branch_factor, batch_size, fault_index, fault_kind, external_header=True, smax=64):
+    """The real `run()` (save before every step, final save) on ghosts, with ONE injected fault: the engine-leaf call
+    number `fault_index` (0-based, counted over the run) raises OSError (`fault_kind` False) or Interrupt, a
+    BaseException (`fault_kind` True); an index beyond the last call means no fault.  After the fault a new
+    process resumes: the real `load_combiner(save_path)` on whatever plan the real code left on disk, then the real
+    `run()` without further fault.  Returns (ok, reason, info) with info = {'fired', 'saves_run1', 'saves_run2'}.
+
+    run() serialises the plan before the first step, which makes every number concrete, so all numbers are realised
+    here first (one CrossHair path per value) and the real code then runs with CrossHair's tracer off; only the
+    comparison "is this the failing call?" and the fault kind are evaluated symbolically (tracing resumed)."""
+    global W
+    W = World()
+    branch_factor = case_split(branch_factor, 2, 4)
+    batch_size = case_split(batch_size, 1, 3)
+    vds_sizes = [case_split(s, 1, smax) for s in vds_sizes]
+    tracing = _tracing()
+    if not tracing:
+        return _fault_body(n_gvcfs, vds_sizes, branch_factor, batch_size, fault_index, fault_kind, external_header)
+    from crosshair.tracers import NoTracing
+    with NoTracing():
+        if not _is_concrete([branch_factor, batch_size, vds_sizes, n_gvcfs, external_header]):
+            return False, 'harness: arguments outside the ranges the conditions declare', {'fired': None}
+        W.untraced = True
+        return _fault_body(n_gvcfs, vds_sizes, branch_factor, batch_size, fault_index, fault_kind, external_header)
+
+
+def _fault_body(n_gvcfs, vds_sizes, branch_factor, batch_size, fault_index, fault_kind, external_header):
+    n_inputs = n_gvcfs + len(vds_sizes)
+    info = {'fired': None, 'saves_run1': 0, 'saves_run2': 0}
+    W.faults_on = True
+    W.fault_armed = True
+    W.fault_at = fault_index
+    W.fault_kind = fault_kind
+    W.leaf_bound = 16 * (n_inputs + 8) + 8 * n_inputs * n_inputs
+    W.save_bound = n_inputs + 10        # run() saves once per step and once at the end
+    args = (n_gvcfs, vds_sizes, branch_factor, batch_size, external_header)
+    try:
+        c = new_combiner(*args)
+        try:
+            c.run()
+        except (OSError, Interrupt) as e:
+            if e is not W.injected:
+                return False, f'raised {type(e).__name__}: {e}', info
+        info['saves_run1'] = W.saves
+        if W.fired is not None:
+            info['fired'] = list(W.fired)
+            W.fault_armed = False
+            W.saves = 0
+            W.leaf_calls = 0
+            c2 = _resume_from_disk(args)
+            c2.run()
+            info['saves_run2'] = W.saves
+    except Exception as e:  # CrossHair's control exceptions derive from BaseException
+        return False, f'raised {type(e).__name__}: {e}', info
+    ok, why = check_final(n_gvcfs, len(vds_sizes))
+    return ok, why, info
+
+
+def _resume_from_disk(args):
+    """What a user does after a failed run: load the saved plan (the real module-level load_combiner, real Decoder).
+    If no plan was ever saved, start again from the original arguments (as hl.vds.new_combiner does, including its
+    _raise_if_output_exists check).  If the real code refuses because a complete output already exists, follow its
+    message (move/delete the output) and try once more."""
+    for attempt in (0, 1):
+        try:
+            if SAVE in W.files:
+                return vdc.load_combiner(SAVE)
+            c = new_combiner(*args)
+            c._raise_if_output_exists()
+            return c
+        except vdc.FatalError as e:
+            if attempt or 'combiner output already exists' not in str(e) or OUT not in W.datasets:
+                raise
+            del W.datasets[OUT]
+            W.write_log = [p for p in W.write_log if p != OUT]
+
+
+def fault_property_holds(n_gvcfs, vds_sizes, branch_factor, batch_size, fault_index, fault_kind, external_header=True,
+                         smax=64):
+    return fault_execute(n_gvcfs, vds_sizes, branch_factor, batch_size, fault_index, fault_kind, external_header, smax)[0]
+
+
+def fault_unreached(n_gvcfs, vds_sizes, branch_factor, batch_size, fault_index, fault_kind, external_header=True,
+                    smax=64):
+    """Reachability twin body: False (=> CrossHair refutes) iff for some input a fault really fires inside a step and
+    the resumed run takes at least one more step and completes correctly."""
+    ok, _, info = fault_execute(n_gvcfs, vds_sizes, branch_factor, batch_size, fault_index, fault_kind, external_header, smax)
+    return not (ok and info['fired'] is not None and info['saves_run2'] >= 2)
